@@ -5,7 +5,7 @@
    transactions name each other (or themselves) in Conflicts; a transaction has no duplicate Conflicts
    attribute; SystemFee + NetworkFee < 2^64; balances < 2^255; the Feer's answers change only at
    RemoveStale ([OStale] carries the new ones). *)
-From NG Require Import Common.Tactics Mempool.Model Mempool.Spec Mempool.AddMain Mempool.Main Mempool.Equiv Mempool.Resend Mempool.Legacy Mempool.Examples Mempool.Conc.
+From NG Require Import Common.Tactics Mempool.Model Mempool.Spec Mempool.AddMain Mempool.Main Mempool.Equiv Mempool.Resend Mempool.Legacy Mempool.Examples Mempool.Variant Mempool.Conc.
 Open Scope N_scope.
 
 (* after every sequence of Add / Remove / Verify / RemoveStale the invariant holds *)
@@ -126,6 +126,39 @@ Theorem C08_payer_by_cosigner_refuted :
 Proof. exact payer_by_cosigner_refuted. Qed.
 Print Assumptions C08_payer_by_cosigner_refuted.
 
+(* ---- the stored fee per byte (repair F57). [fixed_cfg] = [repaired false] stores the Feer's fee per byte only when it
+   rose; [repaired true] stores it at every RemoveStale (a decrease is followed, a later increase is compared with the
+   current value). Add, Verify and Remove do not look at the switch and one RemoveStale keeps the same transactions
+   under both; the sequence-level theorems hold for BOTH behaviours: *)
+Theorem C08_inv_reachable_both : forall U, good_universe U -> forall follow capacity bal0 ops,
+  bal_ok bal0 -> Forall (op_ok U) ops ->
+  let st := run (repaired follow) (mkState (new_pool capacity) bal0) ops in
+  Inv U (st_bal st) (st_pool st).
+Proof. exact inv_reachable_both. Qed.
+Print Assumptions C08_inv_reachable_both.
+
+Theorem C08_no_panic_both : forall U, good_universe U -> forall follow capacity bal0 ops,
+  bal_ok bal0 -> Forall (op_ok U) ops ->
+  ~ In RPanic (results (repaired follow) (mkState (new_pool capacity) bal0) ops).
+Proof. exact no_panic_both. Qed.
+Print Assumptions C08_no_panic_both.
+
+Theorem C08_resend_preserves_inv_both : forall U, good_universe U -> forall follow capacity bal0 ops,
+  bal_ok bal0 -> Forall (fun ro => Forall (op_ok U) (plain ro)) ops ->
+  let rs := rrun (repaired follow) (mkR (mkState (new_pool capacity) bal0) [] 0) ops in
+  Inv U (st_bal (r_st rs)) (st_pool (r_st rs)).
+Proof. exact resend_preserves_inv_both. Qed.
+Print Assumptions C08_resend_preserves_inv_both.
+
+Theorem C08_add_does_not_see_the_switch : forall a b f f' bal s t, add (mkCfg a b f) bal s t = add (mkCfg a b f') bal s t.
+Proof. exact add_follow_irrelevant. Qed.
+
+(* where the two differ: fee per byte 2, then 0, a transaction paying 1 per byte is pooled, fee per byte 2 again *)
+Example C08_example_follow_fpb_differs :
+  map tid (vtxs (st_pool (run (repaired false) (mkState (new_pool 3) fv_bal) fv_ops))) = [0]
+  /\ map tid (vtxs (st_pool (run (repaired true) (mkState (new_pool 3) fv_bal) fv_ops))) = [].
+Proof. exact follow_fpb_differs. Qed.
+
 (* ---- the pool under concurrent callers. The pool is called from many goroutines; every operation takes the
    pool's RWMutex, so a concurrent execution is an interleaving of LOCK REGIONS (Mempool/Conc.v: a thread is a list
    of regions over the shared state and its own local variables; a schedule picks whose next region runs).
@@ -153,9 +186,9 @@ Proof. exact concurrent_ops_linearizable. Qed.
 Print Assumptions C08_concurrent_ops_linearizable.
 
 (* ... and the invariant holds whenever the lock is free: after every prefix of every schedule *)
-Theorem C08_concurrent_ops_inv : forall U, good_universe U -> forall st ops sched,
+Theorem C08_concurrent_ops_inv : forall U, good_universe U -> forall follow st ops sched,
   bal_ok (st_bal st) -> Inv U (st_bal st) (st_pool st) -> Forall (op_ok U) ops ->
-  let st' := fst (exec sched (pool_conf fixed_cfg st ops)) in
+  let st' := fst (exec sched (pool_conf (repaired follow) st ops)) in
   bal_ok (st_bal st') /\ Inv U (st_bal st') (st_pool st').
 Proof. exact concurrent_ops_inv. Qed.
 Print Assumptions C08_concurrent_ops_inv.
